@@ -17,10 +17,14 @@ Local Open Scope N_scope.
 (* Repaired  : every recorded defect repaired (the theorems)
    Defective : the code as first found (Release pushes unassignable addresses back, prefixToIndex
                accepts foreign prefixes, one poolVRFs map shared by the three pool families)
-   SharedVrf : Release and prefixToIndex repaired, poolVRFs still shared *)
-Inductive variant := Repaired | Defective | SharedVrf.
+   SharedVrf : Release and prefixToIndex repaired, poolVRFs still shared
+   Unguarded : all of the above repaired; the range loops of buildFreeList / parseExcludeRange have no
+               guard against running past the last address, NewPrefixAllocator accepts prefix
+               lengths above 128 *)
+Inductive variant := Repaired | Defective | SharedVrf | Unguarded.
 Definition is_defective (v : variant) : bool := match v with Defective => true | _ => false end.
-Definition shared_vrf (v : variant) : bool := match v with Repaired => false | _ => true end.
+Definition shared_vrf (v : variant) : bool := match v with Defective | SharedVrf => true | _ => false end.
+Definition unguarded (v : variant) : bool := match v with Repaired => false | _ => true end.
 
 Inductive family := V4 | V6.
 Definition fam_eqb (a b : family) : bool :=
@@ -73,6 +77,53 @@ Definition build_free (c : pcfg) (m : lease_map) (ascending : bool) : list addr 
 
 Definition pool_init (c : pcfg) : pstate :=
   {| free := build_free c [] true; leases := []; asc := true |}.
+
+(* ---------------------------------------------------------------- the range loop, literally *)
+(* `for addr := start; addr.Compare(end) <= 0; addr = addr.Next()` of buildFreeList and
+   parseExcludeRange.  netip.Addr.Next() of the last address of a family is the zero Addr, which
+   Compare orders BELOW every address; Next() of a zero-zone Addr stays zero-zoned.  XZ n is an Addr
+   with the zero zone (the zero Addr when n = 0). *)
+Inductive xaddr := XZ (n : N) | XA (a : addr).
+Definition fam_max (f : family) : N :=
+  match f with V4 => 4294967295 | V6 => 340282366920938463463374607431768211455 end.
+Definition xnext (x : xaddr) : xaddr :=
+  match x with
+  | XA (f, n) => if N.eqb n (fam_max f) then XZ 0 else XA (f, n + 1)
+  | XZ n => if N.eqb n (fam_max V6) then XZ 0 else XZ (n + 1)
+  end.
+(* x.Compare(hi) <= 0: shorter addresses first (zero Addr: length 0, IPv4: 32, IPv6: 128) *)
+Definition xle (x : xaddr) (hi : addr) : bool :=
+  match x with
+  | XZ _ => true
+  | XA (f, n) => match f, fst hi with V4, V6 => true | V6, V4 => false | _, _ => N.leb n (snd hi) end
+  end.
+Definition xvalid (x : xaddr) : bool := match x with XA _ => true | XZ _ => false end.
+(* guarded = the repaired loop condition `addr.IsValid() && addr.Compare(end) <= 0`; None = out of fuel *)
+Fixpoint range_loop (guarded : bool) (fuel : nat) (x : xaddr) (hi : addr) : option (list xaddr) :=
+  match fuel with
+  | O => None
+  | S k =>
+      if (negb guarded || xvalid x) && xle x hi
+      then match range_loop guarded k (xnext x) hi with Some l => Some (x :: l) | None => None end
+      else Some []
+  end.
+(* does the loop from lo to hi terminate?  (proved against range_loop in Proofs.v) *)
+Definition range_terminates (v : variant) (lo hi : addr) : bool :=
+  negb (unguarded v) || negb (xle (XA lo) hi) ||
+  (fam_eqb (fst lo) (fst hi) && N.ltb (snd hi) (fam_max (fst hi))).
+
+(* NewPoolAllocator(rangeStart, rangeEnd, exclude): None = never returns.
+   Range ends of different families: as found, IPv4..IPv6 runs off the end of the IPv4 space
+   (never returns) and IPv6..IPv4 is an empty range that contains nothing; repaired, both are
+   the empty range. *)
+Definition empty_geom (excl : list addr) : pcfg := {| p_fam := V4; p_lo := 1; p_hi := 0; p_excl := excl |}.
+Definition pool_geom (v : variant) (lo hi : addr) (excl : list addr) : option pcfg :=
+  let lo := unmap lo in let hi := unmap hi in
+  if range_terminates v lo hi
+  then if fam_eqb (fst lo) (fst hi)
+       then Some {| p_fam := fst lo; p_lo := snd lo; p_hi := snd hi; p_excl := excl |}
+       else Some (empty_geom excl)
+  else None.
 
 (* for i, f := range free { if f == addr { free = append(free[:i], free[i+1:]...); break } } *)
 Fixpoint remove_first (a : addr) (l : list addr) : list addr :=
@@ -190,7 +241,10 @@ Definition pd_count (c : pdcfg) : N := N.pow 2 (pd_plen c - pd_nbits c).
 (* NewPrefixAllocator returns nil unless 0 <= plen - nbits <= 63 *)
 Definition pd_valid (c : pdcfg) : bool :=
   N.leb (pd_nbits c) (pd_plen c) && N.leb (pd_plen c - pd_nbits c) 63.
-(* the domain the model (and the theorems) cover: additionally plen <= 128, network < 2^128 *)
+(* repaired: additionally the prefix length must fit the address (plen <= 128) *)
+Definition pd_new (v : variant) (c : pdcfg) : bool :=
+  pd_valid c && (unguarded v || N.leb (pd_plen c) 128).
+(* the domain of the arithmetic theorems: plen <= 128, network < 2^128 *)
 Definition pd_wf (c : pdcfg) : bool :=
   pd_valid c && N.leb (pd_plen c) 128 && N.ltb (pd_net c) W128.
 
@@ -201,7 +255,9 @@ Definition index_to_prefix (c : pdcfg) (idx : N) : N :=
   let lo := b mod W64 in
   let shift := 128 - pd_plen c in
   let '(addHi, addLo) :=
-    if N.leb 64 shift then ((idx * N.pow 2 (shift - 64)) mod W64, 0)
+    (* plen > 128: uint(128 - plen) wraps to >= 2^64 - 127, so `idx << (shift - 64)` shifts everything out *)
+    if N.ltb 128 (pd_plen c) then (0, 0)
+    else if N.leb 64 shift then ((idx * N.pow 2 (shift - 64)) mod W64, 0)
     else if N.eqb shift 0 then (0, idx)
     else (idx / N.pow 2 (64 - shift), (idx * N.pow 2 shift) mod W64) in
   let newLo := (lo + addLo) mod W64 in
@@ -272,6 +328,18 @@ Definition pd_step (v : variant) (c : pdcfg) (st : pstate) (k : pdcall) : option
   | PAlloc s None =>
       match pool_step v pc st (CAlloc s None) with Some (st', _) => Some (st', QExhausted) | None => None end
   | PAlloc s (Some (ip, ones, bits)) =>
+      if N.ltb 128 (pd_plen c)
+      then (* as found with plen > 128: every index yields the base address and net.CIDRMask(plen, 128)
+              is nil (Size() = 0,0); the answer does not identify the index, any free one is consumed *)
+           match lifo_choice st with
+           | Some a =>
+               if N.eqb ip (pd_base c) && N.eqb ones 0 && N.eqb bits 0
+               then match pool_step v pc st (CAlloc s (Some a)) with
+                    | Some (st', _) => Some (st', QPfx ip ones bits) | None => None end
+               else None
+           | None => None
+           end
+      else
       match prefix_to_index v c (Pfx (Some (V6, ip)) ones bits) with
       | Some i =>
           if N.eqb (index_to_prefix c i) ip
@@ -440,6 +508,94 @@ Fixpoint insert_by_prio (p : rpool) (l : list rpool) : list rpool :=
   end.
 Definition sort_by_prio (l : list rpool) : list rpool :=
   fold_left (fun acc p => insert_by_prio p acc) l [].
+
+(* ---------------------------------------------------------------- configuration -> geometry *)
+(* What initV4Pools / initV6Pools compute from an ip.IPv4Pool / ip.IANAPool / ip.PDPool before they call
+   NewPoolAllocator / NewPrefixAllocator.  Address strings are abstracted to: empty, does not parse,
+   parses to an address (netip.ParseAddr / netaddr.ParseIPPrefix themselves are not modelled). *)
+Inductive cstr := SEmpty | SJunk | SAddr (a : addr).
+Record pool_spec := {
+  sp_net : option (addr * N);         (* pool.Network parsed: address and prefix bits; None = parse error *)
+  sp_lo : cstr; sp_hi : cstr;         (* RangeStart / RangeEnd *)
+  sp_gw : cstr;                       (* pool.Gateway *)
+  sp_pgw : cstr;                      (* profile.Gateway (IPv4 profiles) *)
+  sp_plen : N;                        (* PDPool.PrefixLength *)
+  sp_excl : list (cstr * cstr)        (* Exclude entries: "a" = (a, SEmpty), "a-b" = (a, b) *)
+}.
+Definition fam_width (f : family) : N := match f with V4 => 32 | V6 => 128 end.
+
+(* the gateway that is excluded: pool.Gateway, for IPv4 pools the profile's when the pool has none *)
+Definition eff_gw (f : rfam) (sp : pool_spec) : cstr :=
+  match f with
+  | F4 => match sp_gw sp with SEmpty => sp_pgw sp | g => g end
+  | _ => sp_gw sp
+  end.
+(* parseExcludeRange; None = the loop never returns *)
+Definition expand_excl (v : variant) (e : cstr * cstr) : option (list addr) :=
+  match e with
+  | (SAddr a, SEmpty) => Some [a]
+  | (SAddr a, SAddr b) =>
+      if range_terminates v a b
+      then if fam_eqb (fst a) (fst b)
+           then Some (map (fun i => (fst a, snd a + N.of_nat i)) (seq 0%nat (N.to_nat (snd b + 1 - snd a))))
+           else Some []
+      else None
+  | _ => Some []
+  end.
+Fixpoint expand_all (v : variant) (l : list (cstr * cstr)) : option (list addr) :=
+  match l with
+  | [] => Some []
+  | e :: r => match expand_excl v e, expand_all v r with
+              | Some a, Some b => Some (a ++ b) | _, _ => None end
+  end.
+(* outer None: registry construction never returns; inner None: no allocator is created for the pool *)
+Definition spec_geom (v : variant) (f : rfam) (sp : pool_spec) : option (option acfg) :=
+  match sp_net sp with
+  | None => Some None
+  | Some (na, bits) =>
+      match f with
+      | FPD =>
+          let c := {| pd_net := snd na; pd_nbits := bits; pd_plen := sp_plen sp |} in
+          Some (if pd_new v c then Some (APd c) else None)
+      | _ =>
+          let m := N.pow 2 (fam_width (fst na) - bits) in
+          let first := (snd na / m) * m in
+          let last := first + m - 1 in
+          (* prefix.Range().From().Next() / .To().Prior(): the zero IP (which does not parse) past the ends *)
+          let lo := match sp_lo sp with
+                    | SEmpty => if N.eqb first (fam_max (fst na)) then None else Some (fst na, first + 1)
+                    | SJunk => None | SAddr a => Some a end in
+          let hi := match sp_hi sp with
+                    | SEmpty => if N.eqb last 0 then None else Some (fst na, last - 1)
+                    | SJunk => None | SAddr a => Some a end in
+          match lo, hi with
+          | Some lo, Some hi =>
+              let gws := match eff_gw f sp with SAddr g => [g] | _ => [] end in
+              match (match f with F4 => expand_all v (sp_excl sp) | _ => Some [] end) with
+              | None => None
+              | Some ex => match pool_geom v lo hi (gws ++ ex) with
+                           | Some c => Some (Some (APool c)) | None => None end
+              end
+          | _, _ => Some None
+          end
+      end
+  end.
+Record rpool_spec := { rs_name : N; rs_prio : Z; rs_vrf : N; rs_spec : pool_spec }.
+Record rprofile_spec := { sf_name : N; sf_fam : rfam; sf_pools : list rpool_spec }.
+Fixpoint pools_of_specs (v : variant) (f : rfam) (l : list rpool_spec) : option (list rpool) :=
+  match l with
+  | [] => Some []
+  | p :: r => match spec_geom v f (rs_spec p), pools_of_specs v f r with
+              | Some g, Some ps => Some ({| rp_name := rs_name p; rp_prio := rs_prio p; rp_vrf := rs_vrf p; rp_cfg := g |} :: ps)
+              | _, _ => None end
+  end.
+Fixpoint reg_config (v : variant) (l : list rprofile_spec) : option (list rprofile) :=
+  match l with
+  | [] => Some []
+  | pf :: r => match pools_of_specs v (sf_fam pf) (sf_pools pf), reg_config v r with
+               | Some ps, Some pfs => Some ({| rf_name := sf_name pf; rf_fam := sf_fam pf; rf_pools := ps |} :: pfs)
+               | _, _ => None end
+  end.
 
 (* one iteration of the pool loop of initV4Pools / initV6Pools *)
 Definition init_pool (v : variant) (f : rfam) (pfname : N) (s : rstate) (p : rpool) : rstate :=
